@@ -29,6 +29,135 @@ def apply_initial(vh, db, ws, order):
             raise Inconclusive(f"initial analysis failed: {r}")
 
 
+def one_history(ctx, vh, ws, steps, quick):
+    root = ws.root
+    order = sorted(ws.workspace_py())
+    A = vh.new_db()
+    apply_initial(vh, A, ws, order)
+    AQ = vh.new_db()            # realistic long-lived server: queried at every prefix
+    apply_initial(vh, AQ, ws, order)
+    latest_valid = {}
+    current = {}
+    last_ok_order = []
+    prev_op = "init"
+    prev_sig = None
+    for k, st in enumerate(steps):
+        f = ws.abs(st["rel"])
+        r = vh.call(op="analyze", db=A, path=f, text=st["text"])
+        vh.call(op="analyze", db=AQ, path=f, text=st["text"])
+        if "panic" in r:
+            raise Inconclusive(f"analysis panicked (C11 territory): {r}")
+        current[st["rel"]] = st["text"]
+        if st["valid"]:
+            latest_valid[st["rel"]] = st["text"]
+            if st["rel"] in last_ok_order:
+                last_ok_order.remove(st["rel"])
+            last_ok_order.append(st["rel"])
+        if quick and k % 2 == 1 and k != len(steps) - 1:
+            prev_op = st["op"]
+            continue
+        # ---- twin B: fresh database on the latest *valid* content only --------------------
+        B = vh.new_db()
+        apply_initial(vh, B, ws, order)
+        cmds = [{"op": "analyze", "db": B, "path": ws.abs(rel), "text": latest_valid[rel]} for rel in last_ok_order]
+        if cmds:
+            vh.call(op="batch", cmds=cmds)
+        sa = vh.call(op="snapshot", db=A)
+        sb = vh.call(op="snapshot", db=B)
+        invalid_now = {ws.abs(rel) for rel, txt in current.items() if latest_valid.get(rel) != txt}
+        # B2: additionally receives the currently unparsable texts (used only to attribute the known finding)
+        sb2 = None
+        if invalid_now:
+            B2 = vh.new_db()
+            apply_initial(vh, B2, ws, order)
+            cmds2 = list(cmds) and [dict(c, db=B2) for c in cmds]
+            for rel, txt in current.items():
+                if latest_valid.get(rel) != txt:
+                    cmds2.append({"op": "analyze", "db": B2, "path": ws.abs(rel), "text": txt})
+            vh.call(op="batch", cmds=cmds2)
+            sb2 = vh.call(op="snapshot", db=B2)
+            vh.call(op="drop_db", db=B2)
+        ctx.judged()
+        if sa["invariants"]:
+            ctx.violation({"kind": "mirror-invariant", "what": sa["invariants"][:3]},
+                          {"history": [(s["op"], s["rel"]) for s in steps[:k + 1]]},
+                          files=hist_files(ws, steps[:k + 1]))
+
+        def compare(snap, kind):
+            ra, rb = raw_ordered(snap["raw"]), raw_ordered(sb["raw"])
+            ra.pop("file_cache", None); rb.pop("file_cache", None)
+            dd = diff({"raw": ra}, {"raw": rb})
+            qa = filter_queries(snap["queries"], invalid_now)
+            qb = filter_queries(sb["queries"], invalid_now)
+            dq = diff({"queries": qa}, {"queries": qb})
+            if dq and not dd and sb2 is not None:
+                # known finding: re-exports of a currently unparsable file vanish for everybody
+                q2 = filter_queries(sb2["queries"], invalid_now)
+                has_imports = any(FileModel(latest_valid.get(rel, ws.files[rel])).imports
+                                  for rel, txt in current.items() if latest_valid.get(rel) != txt)
+                if not diff({"queries": qa}, {"queries": q2}) and has_imports and ctx.known(KF_INVALID_IMPORTS):
+                    dq = []
+            dd = dd + dq
+            if dd:
+                ctx.violation({"kind": kind, "first_diff": strip_root(dd[0][0], root),
+                               "ops": [s["op"] for s in steps[:k + 1]][-3:]},
+                              {"diffs": [(strip_root(p, root), brief(strip_root(x, root)), brief(strip_root(y, root))) for p, x, y in dd[:5]],
+                               "history": [(s["op"], s["rel"]) for s in steps[:k + 1]]},
+                              files=hist_files(ws, steps[:k + 1]))
+        compare(sa, "history-vs-fresh-twin")
+        sq = vh.call(op="snapshot", db=AQ)
+        ctx.judged()
+        compare(sq, "history-with-queries-vs-fresh-twin")
+        # ---- twin C (cold) -----------------------------------------------------
+        C = vh.new_db()
+        last_rel = st["rel"]
+        seq = [r_ for r_ in order if r_ != last_rel] + [last_rel]
+        cmds = []
+        for rel in seq:
+            txt = latest_valid.get(rel, ws.files[rel])
+            cmds.append({"op": "analyze", "db": C, "path": ws.abs(rel), "text": txt})
+            cur = current.get(rel)
+            if cur is not None and cur != txt:
+                cmds.append({"op": "analyze", "db": C, "path": ws.abs(rel), "text": cur})
+        vh.call(op="batch", cmds=cmds)
+        rc = vh.call(op="raw", db=C)
+        ctx.judged()
+        ma, mc = raw_multiset(sa["raw"]), raw_multiset(rc)
+        dd = diff(ma, mc)
+        ctx.count("prefixes_with_unparsable_doc", 1 if invalid_now else 0)
+        if dd:
+            ctx.violation({"kind": "history-vs-cold-twin", "first_diff": strip_root(dd[0][0], root),
+                           "ops": [s["op"] for s in steps[:k + 1]][-3:]},
+                          {"diffs": [(strip_root(p, root), brief(strip_root(x, root)), brief(strip_root(y, root))) for p, x, y in dd[:5]],
+                           "history": [(s["op"], s["rel"]) for s in steps[:k + 1]]},
+                          files=hist_files(ws, steps[:k + 1]))
+        if st["valid"]:
+            ua = sa["raw"]["undeclared"].get(f, [])
+            uc = rc["undeclared"].get(f, [])
+            ctx.judged()
+            if sorted(map(str, ua)) != sorted(map(str, uc)):
+                ctx.violation({"kind": "undeclared-of-last-changed-doc", "file": st["rel"],
+                               "ops": [s["op"] for s in steps[:k + 1]][-3:]},
+                              {"history_db": ua, "fresh_db": uc,
+                               "history": [(s["op"], s["rel"]) for s in steps[:k + 1]]},
+                              files=hist_files(ws, steps[:k + 1]))
+        sig = hash(str(ma["definitions"]) + str(ma["usages"]))
+        if sig != prev_sig:
+            ctx.nontrivial((prev_op, st["op"]))
+        prev_sig = sig
+        prev_op = st["op"]
+        for d_ in (B, C):
+            vh.call(op="drop_db", db=d_)
+        # keep A free of earlier queries: rebuild it by replaying the history so far
+        vh.call(op="drop_db", db=A)
+        A = vh.new_db()
+        apply_initial(vh, A, ws, order)
+        vh.call(op="batch", cmds=[{"op": "analyze", "db": A, "path": ws.abs(s["rel"]), "text": s["text"]}
+                                 for s in steps[:k + 1]])
+    vh.call(op="drop_db", db=A)
+    vh.call(op="drop_db", db=AQ)
+
+
 def run(ctx):
     quick = ctx.tier == "quick"
     n_hist = 40 if quick else 1500
@@ -39,6 +168,7 @@ def run(ctx):
                 "after) transitions that changed the index")
     vh = VH(vh_bin(), locklog=os.path.join(ctx.scratch_root, "lock_vh.log"))
     try:
+        pinned(ctx, vh)
         for h in range(n_hist):
             root = ctx.scratch(f"h{h}")
             ws = gen.gen_workspace(root, ctx.rng, depth=ctx.rng.randint(1, 2), venv=False)
@@ -50,130 +180,7 @@ def run(ctx):
                 steps = hist.gen_history(ws, ctx.rng, ctx.rng.randint(3, max_steps), parses=lambda t: vh.call(op="parses", text=t)["ok"])
             if not steps:
                 continue
-            A = vh.new_db()
-            apply_initial(vh, A, ws, order)
-            AQ = vh.new_db()            # realistic long-lived server: queried at every prefix
-            apply_initial(vh, AQ, ws, order)
-            latest_valid = {}
-            current = {}
-            last_ok_order = []
-            prev_op = "init"
-            prev_sig = None
-            for k, st in enumerate(steps):
-                f = ws.abs(st["rel"])
-                r = vh.call(op="analyze", db=A, path=f, text=st["text"])
-                vh.call(op="analyze", db=AQ, path=f, text=st["text"])
-                if "panic" in r:
-                    raise Inconclusive(f"analysis panicked (C11 territory): {r}")
-                current[st["rel"]] = st["text"]
-                if st["valid"]:
-                    latest_valid[st["rel"]] = st["text"]
-                    if st["rel"] in last_ok_order:
-                        last_ok_order.remove(st["rel"])
-                    last_ok_order.append(st["rel"])
-                if quick and k % 2 == 1 and k != len(steps) - 1:
-                    prev_op = st["op"]
-                    continue
-                # ---- twin B: fresh database on the latest *valid* content only --------------------
-                B = vh.new_db()
-                apply_initial(vh, B, ws, order)
-                cmds = [{"op": "analyze", "db": B, "path": ws.abs(rel), "text": latest_valid[rel]} for rel in last_ok_order]
-                if cmds:
-                    vh.call(op="batch", cmds=cmds)
-                sa = vh.call(op="snapshot", db=A)
-                sb = vh.call(op="snapshot", db=B)
-                invalid_now = {ws.abs(rel) for rel, txt in current.items() if latest_valid.get(rel) != txt}
-                # B2: additionally receives the currently unparsable texts (used only to attribute the known finding)
-                sb2 = None
-                if invalid_now:
-                    B2 = vh.new_db()
-                    apply_initial(vh, B2, ws, order)
-                    cmds2 = list(cmds) and [dict(c, db=B2) for c in cmds]
-                    for rel, txt in current.items():
-                        if latest_valid.get(rel) != txt:
-                            cmds2.append({"op": "analyze", "db": B2, "path": ws.abs(rel), "text": txt})
-                    vh.call(op="batch", cmds=cmds2)
-                    sb2 = vh.call(op="snapshot", db=B2)
-                    vh.call(op="drop_db", db=B2)
-                ctx.judged()
-                if sa["invariants"]:
-                    ctx.violation({"kind": "mirror-invariant", "what": sa["invariants"][:3]},
-                                  {"history": [(s["op"], s["rel"]) for s in steps[:k + 1]]},
-                                  files=hist_files(ws, steps[:k + 1]))
-
-                def compare(snap, kind):
-                    ra, rb = raw_ordered(snap["raw"]), raw_ordered(sb["raw"])
-                    ra.pop("file_cache", None); rb.pop("file_cache", None)
-                    dd = diff({"raw": ra}, {"raw": rb})
-                    qa = filter_queries(snap["queries"], invalid_now)
-                    qb = filter_queries(sb["queries"], invalid_now)
-                    dq = diff({"queries": qa}, {"queries": qb})
-                    if dq and not dd and sb2 is not None:
-                        # known finding: re-exports of a currently unparsable file vanish for everybody
-                        q2 = filter_queries(sb2["queries"], invalid_now)
-                        has_imports = any(FileModel(latest_valid.get(rel, ws.files[rel])).imports
-                                          for rel, txt in current.items() if latest_valid.get(rel) != txt)
-                        if not diff({"queries": qa}, {"queries": q2}) and has_imports and ctx.known(KF_INVALID_IMPORTS):
-                            dq = []
-                    dd = dd + dq
-                    if dd:
-                        ctx.violation({"kind": kind, "first_diff": strip_root(dd[0][0], root),
-                                       "ops": [s["op"] for s in steps[:k + 1]][-3:]},
-                                      {"diffs": [(strip_root(p, root), brief(strip_root(x, root)), brief(strip_root(y, root))) for p, x, y in dd[:5]],
-                                       "history": [(s["op"], s["rel"]) for s in steps[:k + 1]]},
-                                      files=hist_files(ws, steps[:k + 1]))
-                compare(sa, "history-vs-fresh-twin")
-                sq = vh.call(op="snapshot", db=AQ)
-                ctx.judged()
-                compare(sq, "history-with-queries-vs-fresh-twin")
-                # ---- twin C (cold) -----------------------------------------------------
-                C = vh.new_db()
-                last_rel = st["rel"]
-                seq = [r_ for r_ in order if r_ != last_rel] + [last_rel]
-                cmds = []
-                for rel in seq:
-                    txt = latest_valid.get(rel, ws.files[rel])
-                    cmds.append({"op": "analyze", "db": C, "path": ws.abs(rel), "text": txt})
-                    cur = current.get(rel)
-                    if cur is not None and cur != txt:
-                        cmds.append({"op": "analyze", "db": C, "path": ws.abs(rel), "text": cur})
-                vh.call(op="batch", cmds=cmds)
-                rc = vh.call(op="raw", db=C)
-                ctx.judged()
-                ma, mc = raw_multiset(sa["raw"]), raw_multiset(rc)
-                dd = diff(ma, mc)
-                ctx.count("prefixes_with_unparsable_doc", 1 if invalid_now else 0)
-                if dd:
-                    ctx.violation({"kind": "history-vs-cold-twin", "first_diff": strip_root(dd[0][0], root),
-                                   "ops": [s["op"] for s in steps[:k + 1]][-3:]},
-                                  {"diffs": [(strip_root(p, root), brief(strip_root(x, root)), brief(strip_root(y, root))) for p, x, y in dd[:5]],
-                                   "history": [(s["op"], s["rel"]) for s in steps[:k + 1]]},
-                                  files=hist_files(ws, steps[:k + 1]))
-                if st["valid"]:
-                    ua = sa["raw"]["undeclared"].get(f, [])
-                    uc = rc["undeclared"].get(f, [])
-                    ctx.judged()
-                    if sorted(map(str, ua)) != sorted(map(str, uc)):
-                        ctx.violation({"kind": "undeclared-of-last-changed-doc", "file": st["rel"],
-                                       "ops": [s["op"] for s in steps[:k + 1]][-3:]},
-                                      {"history_db": ua, "fresh_db": uc,
-                                       "history": [(s["op"], s["rel"]) for s in steps[:k + 1]]},
-                                      files=hist_files(ws, steps[:k + 1]))
-                sig = hash(str(ma["definitions"]) + str(ma["usages"]))
-                if sig != prev_sig:
-                    ctx.nontrivial((prev_op, st["op"]))
-                prev_sig = sig
-                prev_op = st["op"]
-                for d_ in (B, C):
-                    vh.call(op="drop_db", db=d_)
-                # keep A free of earlier queries: rebuild it by replaying the history so far
-                vh.call(op="drop_db", db=A)
-                A = vh.new_db()
-                apply_initial(vh, A, ws, order)
-                vh.call(op="batch", cmds=[{"op": "analyze", "db": A, "path": ws.abs(s["rel"]), "text": s["text"]}
-                                         for s in steps[:k + 1]])
-            vh.call(op="drop_db", db=A)
-            vh.call(op="drop_db", db=AQ)
+            one_history(ctx, vh, ws, steps, quick)
             if h < (6 if quick else 100):
                 lroot = ctx.scratch(f"l{h}")
                 lws = gen.gen_workspace(lroot, ctx.rng, depth=ctx.rng.randint(1, 2), venv=False, allow_imports=False)
@@ -307,3 +314,13 @@ def hist_files(ws, steps):
     for i, s in enumerate(steps):
         out[f"step{i:02d}_{s['op']}/{s['rel']}"] = s["text"]
     return out
+
+
+def pinned(ctx, vh):
+    """pinned witnesses of the listed known findings, judged by the same code as the generated histories"""
+    from ..witness import WITNESS, ws_from_witness
+    for kf_id in (KF_INVALID_IMPORTS,):
+        w = WITNESS[kf_id]
+        ws = ws_from_witness(ctx, w)
+        one_history(ctx, vh, ws, w["steps"], quick=False)
+        shutil.rmtree(ws.root, ignore_errors=True)
